@@ -99,6 +99,30 @@ structure Ledger where
   gpb : List (Nat × Int) := []
   regPrice : Int := 100000000000
   events : List Event := []
+  /-- NeoCache.committee = storage item 14: the committee of the running epoch with the votes cached at its
+  election, in election order (native_neo.go:63-67) -/
+  committee : List (Nat × Int) := []
+  /-- NeoCache.nextValidators (54) -/
+  nextVals : List Nat := []
+  /-- NeoCache.newEpochCommittee (68-70) -/
+  neCommittee : List (Nat × Int) := []
+  /-- NeoCache.newEpochNextValidators (55-62) -/
+  neVals : List Nat := []
+  /-- Policy's blocked accounts (policy.go:668-721) -/
+  blocked : List Nat := []
+  /-- ghost: sum of the amounts of all GAS `Transfer` notifications with `from` = null emitted since genesis by
+  executions that were not rolled back, and of those with `to` = null -/
+  gasMinted : Int := 0
+  gasBurned : Int := 0
+deriving Repr, Inhabited
+
+/-- transaction.Signer as far as runtime.checkScope (interop/runtime/witness.go:65-113) looks at it for the
+scopes None (0), CalledByEntry (1), CustomContracts (16) and Global (128); witness rules and groups are not
+modelled (no signer of the generated transactions has them). -/
+structure Signer where
+  acc : Nat
+  scopes : Nat
+  allowed : List Nat := []
 deriving Repr, Inhabited
 
 /-- chain constants and the execution context. -/
@@ -120,9 +144,27 @@ structure Env where
   index : Nat := 0
   /-- sender of the transaction being executed -/
   sender : Nat := 0
+  /-- cfg.StandbyCommittee in configuration order (native_neo.go:44, 419) -/
+  standby : List Nat := []
+  /-- account (script hash of the CheckSig script) of every public key of the case -/
+  keyAcc : AL Nat := []
+  /-- accounts of the GAS and Policy contracts -/
+  gasC : Nat := 0
+  policyC : Nat := 0
+  /-- the majority multi-signature accounts the case can build: account ↦ its public keys sorted with
+  PublicKey.Cmp (smartcontract.CreateMajorityMultiSigRedeemScript, native_neo.go:426-431) -/
+  msig : List (Nat × List Nat) := []
+  /-- signers of the transaction being executed -/
+  signers : List Signer := []
 deriving Repr, Inhabited
 
-def addEvent (l : Ledger) (e : Event) : Ledger := { l with events := l.events ++ [e] }
+/-- one `Transfer` notification (native_nep17.go:188-190 emitTransfer); the two ghost totals follow the GAS
+notifications whose `from` resp. `to` is null. -/
+def addEvent (l : Ledger) (e : Event) : Ledger :=
+  { l with
+    events := l.events ++ [e]
+    gasMinted := if e.tok = .gas ∧ e.src = none then l.gasMinted + e.amt else l.gasMinted
+    gasBurned := if e.tok = .gas ∧ e.dst = none then l.gasBurned + e.amt else l.gasBurned }
 
 /-! ## GAS rewards of NEO holders -/
 
@@ -445,6 +487,83 @@ def neoOnPayment (e : Env) (l : Ledger) (amount : Int) (pub : Nat) (witPub : Boo
   else if !witPub then none
   else burnGas (registerInternal l pub) e.neoC amount
 
+/-! ## committee election
+
+Public keys are numbered by the harness so that `k / 2` is the rank of the key's X coordinate among the keys of
+the case and `k % 2` the parity of Y (the prefix byte 02 / 03 of the compressed form).  With pairwise different
+X coordinates `keys.PublicKey.Cmp` (X first, then Y) and the comparator of getCandidates (native_neo.go:1173-1181)
+are `<` on these numbers, and the byte order of the serialized keys — the order in which the storage is iterated
+under prefix 33 — is `bytesLe`. -/
+
+def bytesLe (a b : Nat) : Bool := a % 2 < b % 2 || (a % 2 == b % 2 && a / 2 ≤ b / 2)
+
+def insertBy {α : Type} (le : α → α → Bool) (x : α) : List α → List α
+  | [] => [x]
+  | y :: r => if le x y then x :: y :: r else y :: insertBy le x r
+
+/-- slices.SortFunc with a total order on pairwise different elements. -/
+def sortBy {α : Type} (le : α → α → Bool) (l : List α) : List α := l.foldr (insertBy le) []
+
+/-- the account of a public key (`hash.Hash160` of its CheckSig script, native_neo.go:1153-1154, 510). -/
+def acctOf (e : Env) (k : Nat) : Nat := (get e.keyAcc k).getD 0
+
+/-- the filter of getCandidates (1152-1156): registered and the key's account not blocked by Policy. -/
+def eligible (e : Env) (l : Ledger) (p : Nat × Cand) : Bool :=
+  p.2.reg && !(l.blocked.contains (acctOf e p.1))
+
+/-- the candidates that pass the filter, with their votes, in the order the records are met. -/
+def candList (e : Env) (l : Ledger) : List (Nat × Int) :=
+  (l.cands.filter (eligible e l)).map (fun p => (p.1, p.2.votes))
+
+/-- the comparator of getCandidates (1165-1182): most votes first, ties by key ascending. -/
+def voteLe (a b : Nat × Int) : Bool := decide (a.2 > b.2) || (a.2 == b.2 && decide (a.1 ≤ b.1))
+
+/-- getCandidates(d, false, -1) (1148-1185). -/
+def candsByVotes (e : Env) (l : Ledger) : List (Nat × Int) := sortBy voteLe (candList e l)
+
+/-- getCandidates(d, true, maxNum) (1148-1160): storage order, the iteration stops at `maxNum` entries. -/
+def candsByKey (e : Env) (l : Ledger) (maxNum : Nat) : List (Nat × Int) :=
+  (sortBy (fun a b => bytesLe a.1 b.1) (candList e l)).take maxNum
+
+/-- the votes a standby key has in the candidate list (1387-1393). -/
+def votesIn (cs : List (Nat × Int)) (k : Nat) : Int :=
+  match cs.find? (fun c => c.1 == k) with
+  | some c => c.2
+  | none => 0
+
+/-- computeCommitteeMembers (1363-1406), the `keysWithVotes` result; `none` = error / panic (no total supply:
+division by zero; fewer standby keys than the committee size: slice out of range). -/
+def computeCommittee (e : Env) (l : Ledger) : Option (List (Nat × Int)) :=
+  if l.neoSupply = 0 then none
+  else if e.standby.length < e.csize then none
+  else
+    let turnout := l.voters * 5 / l.neoSupply
+    let cs := candsByVotes e l
+    if turnout ≤ 0 ∨ cs.length < e.csize then
+      some ((e.standby.take e.csize).map (fun k => (k, votesIn cs k)))
+    else some (cs.take e.csize)
+
+/-- `committee[:numOfCNs]` sorted with PublicKey.Cmp (433-435, 458-460); `none` = slice out of range. -/
+def valsOf (e : Env) (cvs : List (Nat × Int)) : Option (List Nat) :=
+  if cvs.length < e.vcount then none
+  else some (sortBy (fun a b => decide (a ≤ b)) ((cvs.map (·.1)).take e.vcount))
+
+/-- updateCachedNewEpochValues (445-462). -/
+def updateNewEpoch (e : Env) (l : Ledger) : Option Ledger :=
+  match computeCommittee e l with
+  | none => none
+  | some cvs =>
+    match valsOf e cvs with
+    | none => none
+    | some vs => some { l with neCommittee := cvs, neVals := vs }
+
+/-- the test of NEO.OnPersist (473-479) that decides whether `CommitteeChanged` is emitted. -/
+def committeeChanged (l : Ledger) : Bool :=
+  (l.committee.zipIdx).any (fun (c, i) =>
+    (match l.neCommittee[i]? with
+     | some n => n.1 != c.1
+     | none => true) || (i == 0 && l.neCommittee.length != l.committee.length))
+
 /-! ## block level -/
 
 /-- one transaction as OnPersist sees it. -/
@@ -565,9 +684,25 @@ def neoPostPersist (e : Env) (l : Ledger) (committee : List (Nat × Nat × Int))
             some (voterRewards e vr l1 (committee.map (fun c => (c.1, c.2.2))) 0)
           else some l1
 
-/-- the part of NEO.OnPersist (465-500) that matters here: the epoch switch clears `votesChanged`. -/
+/-- NEO.OnPersist (465-500): at the first block of an epoch the values computed at the end of the previous one
+become the committee and the validators, and `votesChanged` is cleared. -/
 def neoOnPersist (e : Env) (l : Ledger) : Ledger :=
-  if e.csize ≠ 0 ∧ e.index % e.csize = 0 then { l with votesChanged := false } else l
+  if e.csize ≠ 0 ∧ e.index % e.csize = 0 then
+    { l with nextVals := l.neVals, committee := l.neCommittee, votesChanged := false }
+  else l
+
+/-- NEO.PostPersist (503-576) complete: the committee member's reward and the voters' rewards are computed from
+the cached committee; in the last block of an epoch the next committee and validators are recomputed when a
+vote, a (un)registration or a change of Policy's blocked list happened since the epoch's first block (or the
+configured sizes differ from the cached lists). -/
+def neoPostPersistAll (e : Env) (l : Ledger) : Option Ledger :=
+  match neoPostPersist e l (l.committee.map (fun c => (c.1, acctOf e c.1, c.2))) with
+  | none => none
+  | some l1 =>
+    if e.csize ≠ 0 ∧ (e.index + 1) % e.csize = 0 then
+      if l1.votesChanged ∨ e.vcount ≠ l1.neVals.length ∨ e.csize ≠ l1.neCommittee.length then updateNewEpoch e l1
+      else some l1
+    else some l1
 
 /-- SetGASPerBlock (742-756) + setGASPerBlock (732-739); `none` = panic. -/
 def setGasPerBlock (e : Env) (l : Ledger) (gas : Int) (wit : Bool) : Option Ledger :=
@@ -581,14 +716,76 @@ def setRegisterPrice (l : Ledger) (price : Int) (wit : Bool) : Option Ledger :=
   else if !wit then none
   else some { l with regPrice := price }
 
-/-- NEO.Initialize + GAS.Initialize (native_neo.go:312-366, native_gas.go:83-101) in block 0: both initial
-supplies go to the standby validators' address `h`. -/
-def genesis (h : Nat) (gasInit : Int) : Option Ledger :=
-  let e : Env := ⟨0, 0, 0, 0, 0, [], 0, 0⟩
-  let l0 : Ledger := { gpb := [(0, 500000000)] }
+/-- NEO.Initialize + GAS.Initialize (native_neo.go:312-366, native_gas.go:83-101) and NEO.OnPersist in block 0:
+the committee is the first `csize` standby keys with 0 votes (334-341), both initial supplies go to the standby
+validators' address `h`, the new-epoch values are computed from the (empty) candidate list (360-361), and
+NEO.OnPersist of block 0 (an epoch start) installs them. -/
+def genesisFrom (e : Env) (l0 : Ledger) (h : Nat) (gasInit : Int) : Option Ledger :=
   match mintNeo e l0 h 100000000 with
   | none => none
-  | some l1 => mintGas l1 h gasInit
+  | some l1 =>
+    match updateNewEpoch e l1 with
+    | none => none
+    | some l2 => mintGas (neoOnPersist e l2) h gasInit
+
+def genesis (e : Env) (h : Nat) (gasInit : Int) : Option Ledger :=
+  let e := { e with index := 0 }
+  let cvs0 : List (Nat × Int) := (e.standby.take e.csize).map (fun k => (k, 0))
+  match valsOf e cvs0 with
+  | none => none
+  | some vs0 => genesisFrom e { gpb := [(0, 500000000)], committee := cvs0, nextVals := vs0 } h gasInit
+
+/-! ## witnesses -/
+
+/-- runtime.CheckHashedWitness (interop/runtime/witness.go:21-27) + checkScope (65-113) for a call of the native
+contract `cur` made by `caller` (`none` = the entry script, so the native's context "is called by entry"):
+the calling contract itself, or the first signer with that account whose scope allows the call. -/
+def witOf (e : Env) (acc : Nat) (caller : Option Nat) (cur : Nat) : Bool :=
+  if caller = some acc then true
+  else
+    match e.signers.find? (fun sg => sg.acc == acc) with
+    | none => false
+    | some sg =>
+      sg.scopes == 128 || (sg.scopes &&& 1 != 0 && caller.isNone) || (sg.scopes &&& 16 != 0 && sg.allowed.contains cur)
+
+/-- NeoCache.committeeHash (updateCache 426-431): the majority multi-signature account of the committee's keys;
+`none` = an account nobody of the case can sign for. -/
+def committeeAcct (e : Env) (l : Ledger) : Option Nat :=
+  (e.msig.find? (fun p => p.2 == sortBy (fun a b => decide (a ≤ b)) (l.committee.map (·.1)))).map (·.1)
+
+/-- NEO.CheckCommittee (705-711). -/
+def witCommittee (e : Env) (l : Ledger) (caller : Option Nat) (cur : Nat) : Bool :=
+  match committeeAcct e l with
+  | some a => witOf e a caller cur
+  | none => false
+
+def tokC (e : Env) : Tok → Nat
+  | .neo => e.neoC
+  | .gas => e.gasC
+
+/-! ## Policy.blockAccount / unblockAccount -/
+
+/-- BlockAccountInternalDeferrable (policy.go:668-702) after the committee check, for an account that is not a
+contract: the votes of the account are revoked without a witness (RevokeVotesDeferrable, native_neo.go:1036-1038;
+its error is ignored), the GAS it had not claimed is minted to it, then the account is added to the list and the
+NEO cache is told that the next committee has to be recomputed (726-730).
+`none` = panic; the Bool is the method's result. -/
+def blockAccount (e : Env) (l : Ledger) (acc : Nat) : Option (Ledger × Bool) :=
+  if l.blocked.contains acc then some (l, false)
+  else
+    let cont (l' : Ledger) : Ledger := { l' with blocked := acc :: l'.blocked, votesChanged := true }
+    match votePre e l acc none true with
+    | (l1, false, _) => some (cont l1, true)
+    | (l1, true, none) => some (cont l1, true)
+    | (l1, true, some g) =>
+      match mintGasCb e l1 acc g with
+      | none => none
+      | some l2 => some (cont l2, true)
+
+/-- unblockAccount (706-721) after the committee check. -/
+def unblockAccount (l : Ledger) (acc : Nat) : Ledger × Bool :=
+  if l.blocked.contains acc then ({ l with blocked := l.blocked.filter (· != acc), votesChanged := true }, true)
+  else (l, false)
 
 /-! ## the transaction machine -/
 
@@ -604,24 +801,27 @@ deriving Repr, DecidableEq, Inhabited
 inductive Data
   | other
   | notary (dto : Option Nat) (till : Nat)
-  | pub (p : Nat) (wit : Bool)
+  | pub (p : Nat)
 deriving Repr, DecidableEq, Inhabited
 
+/-- `caller` of a call: the contract that makes it, `none` = the entry script. -/
 inductive Op
   | block (idx : Nat)
   | onPersist (primary : Nat) (notaries : List Nat) (txs : List TxFee)
-  | txBegin (sender : Nat)
-  | transfer (t : Tok) (src dst : Nat) (amt : Int) (wit : Bool) (recv : Recv) (data : Data)
-  | vote (acc : Nat) (pub : Option Nat) (wit : Bool)
+  | txBegin (sender : Nat) (signers : List Signer)
+  | transfer (t : Tok) (src dst : Nat) (amt : Int) (caller : Option Nat) (recv : Recv) (data : Data)
+  | vote (acc : Nat) (pub : Option Nat) (caller : Option Nat)
   | register (pub : Nat)
-  | unregister (pub : Nat) (wit : Bool)
-  | lock (acc : Nat) (till : Nat) (wit : Bool)
-  | withdraw (src : Nat) (dst : Option Nat) (wit : Bool) (recv : Recv)
-  | setGpb (gas : Int) (wit : Bool)
-  | setRegPrice (price : Int) (wit : Bool)
+  | unregister (pub : Nat) (caller : Option Nat)
+  | lock (acc : Nat) (till : Nat) (caller : Option Nat)
+  | withdraw (src : Nat) (dst : Option Nat) (caller : Option Nat) (recv : Recv)
+  | setGpb (gas : Int) (caller : Option Nat)
+  | setRegPrice (price : Int) (caller : Option Nat)
+  | blockAcc (acc : Nat) (caller : Option Nat)
+  | unblockAcc (acc : Nat) (caller : Option Nat)
   | endCb
   | txEnd (abort : Bool)
-  | postPersist (committee : List (Nat × Nat × Int))
+  | postPersist
 deriving Repr, Inhabited
 
 /-- value left on the stack by a top-level call. -/
@@ -679,8 +879,9 @@ def afterPosted (s : St) (t : Tok) (l : Ledger) (src dst : Nat) (amt : Int) (rec
     | _, _ => s.throw
   else if dst = e.neoC then
     match t, data with
-    | .gas, .pub p w =>
-      match neoOnPayment e l amt p w with
+    | .gas, .pub p =>
+      -- checkRegisterCandidate (890-898): NEO.onNEP17Payment runs in a context called by the GAS contract
+      match neoOnPayment e l amt p (witOf e (acctOf e p) (some e.gasC) e.neoC) with
       | none => s.throw
       | some l' => fin l'
     | _, _ => s.throw
@@ -698,9 +899,13 @@ def exec (s : St) (op : Op) : St :=
     let e := { s.env with index := idx }
     let l := neoOnPersist e { s.cur with events := [] }
     { s with env := e, cur := l, snap := l, base := l, failing := false, cbs := [], skip := 0, results := [] }
-  | .onPersist primary notaries txs =>
+  | .onPersist pidx notaries txs =>
+    -- GAS.OnPersist (native_gas.go:117-118): validators[PrimaryIndex] of the running epoch, looked up only when
+    -- the block has transactions
+    let primary := acctOf s.env ((s.cur.nextVals[pidx]?).getD 0)
+    if !txs.isEmpty ∧ s.cur.nextVals.length ≤ pidx then { s with panicked := true }
     -- assumption A1: the accounts GAS is minted to here are key accounts, never the Notary contract
-    if primary = s.env.notary ∨ notaries.contains s.env.notary then s
+    else if primary = s.env.notary ∨ notaries.contains s.env.notary then s
     -- assumption A2: a transaction sent by the Notary contract carries the NotaryAssisted attribute (Notary.verify)
     else if txs.any (fun t => t.sender = s.env.notary ∧ (t.nkeys.isNone ∨ t.payer.isNone)) then s
     else
@@ -710,14 +915,15 @@ def exec (s : St) (op : Op) : St :=
         match notaryOnPersist s.env l1 notaries txs with
         | none => { s with panicked := true }
         | some l2 => { s with cur := l2, snap := l2 }
-  | .postPersist committee =>
-    if committee.any (fun c => c.2.1 = s.env.notary) then s
+  | .postPersist =>
+    if s.cur.committee.any (fun c => acctOf s.env c.1 = s.env.notary) then s
     else
-      match neoPostPersist s.env s.cur committee with
+      match neoPostPersistAll s.env s.cur with
       | none => { s with panicked := true }
       | some l => { s with cur := l, snap := l }
-  | .txBegin sender =>
-    { s with env := { s.env with sender := sender }, snap := s.cur, failing := false, cbs := [], skip := 0, results := [] }
+  | .txBegin sender signers =>
+    { s with env := { s.env with sender := sender, signers := signers }, snap := s.cur, failing := false, cbs := [], skip := 0,
+             results := [] }
   | .txEnd abort =>
     if s.failing ∨ abort ∨ !s.cbs.isEmpty then
       { s with cur := s.snap, failing := false, cbs := [], skip := 0, results := [], last := none }
@@ -733,20 +939,20 @@ def exec (s : St) (op : Op) : St :=
         match mintDists s.env s.cur f.d1 f.d2 with
         | none => s'.throw
         | some l => s'.done l .t
-  | .transfer t src dst amt wit recv data =>
+  | .transfer t src dst amt caller recv data =>
     if s.failing then s
     else
       -- assumption A3: only the Notary contract itself has a witness for its own account (it signs with scope None)
-      match transferPre t s.env s.cur src dst amt (wit && src != s.env.notary) with
+      match transferPre t s.env s.cur src dst amt (witOf s.env src caller (tokC s.env t) && src != s.env.notary) with
       | .thr => s.throw
       | .ret l b =>
         let s' := s.done l (resOf b)
         if recv = .cb then { s' with skip := 1 } else s'
       | .posted l d1 d2 => afterPosted s t l src dst amt recv data d1 d2
-  | .vote acc pub wit =>
+  | .vote acc pub caller =>
     if s.failing then s
     else
-      match votePre s.env s.cur acc pub wit with
+      match votePre s.env s.cur acc pub (witOf s.env acc caller s.env.neoC) with
       | (l, false, _) => s.done l .f
       | (l, true, g) =>
         match g with
@@ -757,20 +963,20 @@ def exec (s : St) (op : Op) : St :=
           | some l' => s.done l' .t
   | .register pub =>
     if s.failing then s else s.done (registerInternal s.cur pub) .t
-  | .unregister pub wit =>
+  | .unregister pub caller =>
     if s.failing then s
     else
-      let (l, b) := unregister s.cur pub wit
+      let (l, b) := unregister s.cur pub (witOf s.env (acctOf s.env pub) caller s.env.neoC)
       s.done l (resOf b)
-  | .lock acc till wit =>
+  | .lock acc till caller =>
     if s.failing then s
     else
-      let (l, b) := lockDeposit s.env s.cur acc till wit
+      let (l, b) := lockDeposit s.env s.cur acc till (witOf s.env acc caller s.env.notary)
       s.done l (resOf b)
-  | .withdraw src dst wit recv =>
+  | .withdraw src dst caller recv =>
     if s.failing then s
     else
-      match withdrawPre s.env s.cur src wit with
+      match withdrawPre s.env s.cur src (witOf s.env src caller s.env.notary) with
       | none => s.done s.cur .f
       | some (l, amt) =>
         let to := dst.getD src
@@ -778,22 +984,37 @@ def exec (s : St) (op : Op) : St :=
         | .thr => s.throw
         | .ret _ _ => s.throw          -- "`transfer` returned false" panic (341-343) / unreachable true without post
         | .posted l' d1 d2 => afterPosted s .gas l' s.env.notary to amt recv .other d1 d2
-  | .setGpb gas wit =>
+  | .setGpb gas caller =>
     if s.failing then s
     else
-      match setGasPerBlock s.env s.cur gas wit with
+      match setGasPerBlock s.env s.cur gas (witCommittee s.env s.cur caller s.env.neoC) with
       | none => s.throw
       | some l => s.done l .null
-  | .setRegPrice price wit =>
+  | .setRegPrice price caller =>
     if s.failing then s
     else
-      match setRegisterPrice s.cur price wit with
+      match setRegisterPrice s.cur price (witCommittee s.env s.cur caller s.env.neoC) with
       | none => s.throw
       | some l => s.done l .null
+  | .blockAcc acc caller =>
+    if s.failing then s
+    -- "invalid committee signature" (654-656); "cannot block native contract" (658-662)
+    else if !witCommittee s.env s.cur caller s.env.policyC then s.throw
+    else if acc = s.env.notary ∨ acc = s.env.neoC ∨ acc = s.env.gasC ∨ acc = s.env.policyC ∨ s.env.noMint.contains acc then s.throw
+    else
+      match blockAccount s.env s.cur acc with
+      | none => s.throw
+      | some (l, b) => s.done l (resOf b)
+  | .unblockAcc acc caller =>
+    if s.failing then s
+    else if !witCommittee s.env s.cur caller s.env.policyC then s.throw
+    else
+      let (l, b) := unblockAccount s.cur acc
+      s.done l (resOf b)
 
 /-- a call made by a script (as opposed to the block-level operations). -/
 def Op.isCall : Op → Bool
-  | .block _ | .onPersist .. | .txBegin _ | .txEnd _ | .postPersist _ => false
+  | .block _ | .onPersist .. | .txBegin .. | .txEnd _ | .postPersist => false
   | _ => true
 
 def step (s : St) (op : Op) : St :=
